@@ -51,6 +51,70 @@ UCL = "naunet/reactions/uclchemreaction.py"
 KEEP = ("_create_species",)        # helpers the rules treat as primitives when a parser is read in its folded form (pymodel.folded)
 
 
+def _select_setattr(fn):
+    """`name = "a" if c else "b"` (or the same choice written as an if / else of two one-line arms) followed, in the same block and
+    with nothing re-binding `name` or evaluated in between that could change `c`'s operands, by the statement `setattr(obj, name, v)`
+    is `if c: obj.a = v else: obj.b = v` -- the attribute chosen by a test is the store chosen by that test.  Returns a rewritten
+    copy, or fn itself when nothing of the kind is in it."""
+    import copy
+
+    def const_tree(e):
+        if isinstance(e, ast.IfExp):
+            return const_tree(e.body) and const_tree(e.orelse)
+        return isinstance(e, ast.Constant) and isinstance(e.value, str) and e.value.isidentifier()
+
+    def as_choice(st):
+        """(name, expression) of `name = <tree of constants>` / `if c: name = "a" else: name = "b"`"""
+        if isinstance(st, ast.Assign) and len(st.targets) == 1 and isinstance(st.targets[0], ast.Name) and isinstance(st.value, ast.IfExp) and const_tree(st.value):
+            return st.targets[0].id, st.value
+        if isinstance(st, ast.If) and len(st.body) == 1 and len(st.orelse) == 1:
+            a, b = as_choice_arm(st.body[0]), as_choice_arm(st.orelse[0])
+            if a is not None and b is not None and a[0] == b[0]:
+                return a[0], ast.IfExp(test=st.test, body=a[1], orelse=b[1])
+        return None
+
+    def as_choice_arm(st):
+        if isinstance(st, ast.Assign) and len(st.targets) == 1 and isinstance(st.targets[0], ast.Name) and const_tree(st.value):
+            return st.targets[0].id, st.value
+        return as_choice(st)
+
+    def store_tree(e, obj, val, like):
+        if isinstance(e, ast.IfExp):
+            return ast.copy_location(ast.If(test=copy.deepcopy(e.test), body=[store_tree(e.body, obj, val, like)], orelse=[store_tree(e.orelse, obj, val, like)]), like)
+        return ast.copy_location(ast.Assign(targets=[ast.Attribute(value=copy.deepcopy(obj), attr=e.value, ctx=ast.Store())], value=copy.deepcopy(val)), like)
+    hit = [False]
+
+    def block(stmts):
+        out = list(stmts)
+        for st in out:
+            for fld in ("body", "orelse", "finalbody"):
+                b = getattr(st, fld, None)
+                if isinstance(b, list) and b and isinstance(b[0], ast.stmt) and not isinstance(st, (ast.FunctionDef, ast.ClassDef, ast.AsyncFunctionDef)):
+                    setattr(st, fld, block(b))
+        for i, st in enumerate(out):
+            ch = as_choice(st)
+            if ch is None:
+                continue
+            name, tree = ch
+            tested = {n.id for n in ast.walk(tree) if isinstance(n, ast.Name)}
+            for j in range(i + 1, len(out)):
+                nx = out[j]
+                c = nx.value if isinstance(nx, ast.Expr) else None
+                if isinstance(c, ast.Call) and isinstance(c.func, ast.Name) and c.func.id == "setattr" and len(c.args) == 3 and not c.keywords \
+                        and isinstance(c.args[1], ast.Name) and c.args[1].id == name and not any(isinstance(n, ast.Name) and n.id == name for a in (c.args[0], c.args[2]) for n in ast.walk(a)):
+                    out[j] = store_tree(tree, c.args[0], c.args[2], nx)
+                    hit[0] = True
+                    break
+                # between the choice and the setattr: plain assignments to other names that the tests do not read
+                if not (isinstance(nx, (ast.Assign, ast.AugAssign, ast.For)) and not ({n.id for n in ast.walk(nx) if isinstance(n, ast.Name) and isinstance(n.ctx, (ast.Store, ast.Del))} & (tested | {name}))
+                        and not any(isinstance(n, (ast.Return, ast.Raise, ast.Break, ast.Continue)) for n in ast.walk(nx))):
+                    break
+        return out
+    new = copy.deepcopy(fn)
+    new.body = block(new.body)
+    return ast.fix_missing_locations(new) if hit[0] else fn
+
+
 def _parser(pkg, cls, meth="_parse_string"):
     """The parser `cls.meth` in its folded form (pymodel.folded) with, in addition, the membership tests `x in TABLE` / `x not in TABLE`
     on a module-level literal table (normalize.module_tables: bound once, never re-bound or edited in its module) spelled with the
@@ -62,6 +126,21 @@ def _parser(pkg, cls, meth="_parse_string"):
     if (cls, meth) in cache:
         return cache[(cls, meth)]
     fn = pkg.folded(cls, meth, keep=KEEP)
+    # a helper OBJECT that lives and dies inside the parser (`bound = _Limit(text)` .. `bound.is_given` .. `float(bound)`, a small class
+    # of the same module) is the bundle of its fields: constructor, properties and methods put back (normalize.inline_local_objects),
+    # then the same folding as pymodel.folded
+    try:
+        from ..normalize import inline_local_objects, fold_static, namedtuple_tables
+        owner = pkg.resolve(cls, meth)[0] or cls
+        file_ = pkg.cls(owner).file
+        fn0 = pkg.expanded(owner, meth, KEEP)
+        if any(isinstance(c, ast.Call) and isinstance(c.func, ast.Name) and c.func.id in pkg.classes and pkg.classes[c.func.id].file == file_ for c in ast.walk(fn0)):
+            fn1 = inline_local_objects(fn0, lambda c: pkg.classes[c].node if c in pkg.classes and pkg.classes[c].file == file_ and c not in pkg.mro(cls) and not pkg.subclasses(c) else None)
+            if fn1 is not fn0:
+                fn = fold_static(pkg.with_class_constants(cls, pkg.with_module_constants(file_, copy.deepcopy(fn1))), namedtuple_tables(pkg.modules[file_]))
+    except RecursionError:
+        pass
+    fn = _select_setattr(fn)
     # a local bound ONCE, to a constant (the parameter of a helper that was put back: `attribute = "temp_min"`), is that constant
     # where it is read; setattr / getattr on it are then plain attribute accesses (fold_static)
     stores = {}
@@ -153,10 +232,21 @@ def _r7(ctx):
         return f
     fl = Flow(fn, RF, resolver=lambda name: pkg.resolve("Reaction", name)[1], func_resolver=fres)
     rets = [f for f in fl.facts if f.kind == "return"]
-    if len(rets) != 1 or rets[0].value is None:
-        ctx.unrec("R7", "writer", W, f"expected one return in Reaction.__format__, found {len(rets)}")
+    # one `return verbose` at the end of an if/elif chain, or one `return <text>` per arm (guard clauses, the last path raising): the
+    # value as the decision tree of its paths (a path that raises writes nothing)
+    from ..valueflow import phi_of_paths
+    v = None
+    if rets and all(f.value is not None and not f.loops for f in rets):
+        v = rets[0].value if len(rets) == 1 else phi_of_paths(
+            [(f.value if f.kind == "return" else ("raise", f.value if f.value is not None else ("const", None)), list(f.guards))
+             for f in fl.facts if f.kind in ("return", "raise") and not f.loops])
+        if v is None:
+            # (a chain that raises in its last arm and returns after the chain: the returns alone form the tree)
+            v = phi_of_paths([(f.value, list(f.guards)) for f in rets])
+    if v is None:
+        ctx.unrec("R7", "writer", W, f"cannot read the value Reaction.__format__ returns as one decision over the format name ({len(rets)} returns)")
         return
-    v = simp(rets[0].value)
+    v = simp(v)
     # the formats somebody reads back: the `format` name of the reaction classes
     readers = {}
     for c in ["Reaction"] + pkg.subclasses("Reaction"):
@@ -248,7 +338,17 @@ def _r5(ctx):
         it_ = strip_transparent(simp(it_))
         if it_[0] == "call" and it_[1] == ("global", "enumerate") and it_[2]:
             return walked(it_[2][0])
-        return it_
+        return per_key(it_)
+
+    def per_key(v):
+        """[key(r, mode) for r in L] with the key chosen per reaction by tests on `mode` alone (a per-reaction key helper) is the list
+        chosen by those tests: the choice does not depend on the reaction, so it is the same for every entry"""
+        if v[0] == "comp" and v[1] in ("list", "gen") and len(v[3]) == 1 and not v[3][0][2]:
+            e = simp(v[2])
+            if e[0] in ("phi", "ifexp") and len(e) == 4 and any(x == MODE for x in walk(e[1])) \
+                    and not any(isinstance(x, tuple) and x and x[0] in ("bv", "elem", "idx") for x in walk(e[1])):
+                return ("phi", e[1], per_key(("comp", v[1], e[2], v[3])), per_key(("comp", v[1], e[3], v[3])))
+        return v
 
     def by_mode(v):
         return v[0] in ("phi", "ifexp") and any(x == MODE for x in walk(v[1]))
@@ -493,8 +593,10 @@ def _r1(ctx):
     extra_bvals = {}
 
     def seqs_of(it_):
-        """the sequences a loop walks position by position: through enumerate(..) and zip(..)"""
+        """the sequences a loop walks position by position: through enumerate(..) and zip(..); `L[:]` is L"""
         it_ = strip_transparent(simp(it_))
+        while it_[0] == "sub" and len(it_) == 3 and it_[2][0] == "slice" and all(x in (None, ("const", None)) for x in it_[2][1:]):
+            it_ = strip_transparent(simp(it_[1]))
         if it_[0] == "call" and it_[1] == ("global", "enumerate") and it_[2]:
             return seqs_of(it_[2][0])
         if it_[0] == "call" and it_[1] == ("global", "zip") and not it_[3]:
@@ -511,6 +613,11 @@ def _r1(ctx):
         if a[0] == "comp" and len(a[3]) == 1:
             tg_, it_, ifs_ = a[3][0]
             return [(b_, f_ or bool(ifs_)) for z in seqs_of(it_) for b_, f_ in sources(z, depth)]
+        if a[0] == "acc" and depth < 3:
+            # a local list filled by one append per iteration of a loop of this function: a view of what that loop walks
+            lb_ = loop_built_seq(fl, a[1])
+            if lb_ is not None:
+                return [x for z in seqs_of(lb_[0].iter) for x in sources(z, depth + 1)]
         sm = summarise(a) if depth < 3 else None
         if sm is not None and sm[0] == "loop":
             return [x for z in seqs_of(sm[2]) for x in sources(z, depth + 1)]
@@ -526,6 +633,14 @@ def _r1(ctx):
         if b_[0] == "call" and b_[1][0] == "global" and b_[1][1] in ("reversed", "sorted", "filter", "list", "tuple", "set", "frozenset", "enumerate", "zip", "iter"):
             return any(opaque(x) for x in b_[2])          # a visible re-ordering / selection / copy of its arguments
         return True
+    def unslice(v_):
+        """`L[:]` (a copy of the whole list) read as L, wherever it stands"""
+        if not isinstance(v_, tuple) or not v_:
+            return v_
+        if v_[0] == "sub" and len(v_) == 3 and isinstance(v_[2], tuple) and v_[2] and v_[2][0] == "slice" and all(x in (None, ("const", None)) for x in v_[2][1:]):
+            return unslice(v_[1])
+        return tuple(unslice(x) if isinstance(x, tuple) else x for x in v_)
+    it, elt0 = unslice(it), unslice(elt0)
     b = match(("call", ("global", "enumerate"), (V("z"),), ()), it)
     if not b and strip_transparent(simp(it))[0] == "call" and strip_transparent(simp(it))[1] == ("global", "zip") and not strip_transparent(simp(it))[3]:
         # no counter at the top: the statements are zipped from lists that were numbered when they were built
@@ -538,6 +653,17 @@ def _r1(ctx):
             stores = [f for f in fl.facts if f.kind in ("store", "augstore") and f.target == b_[1] and f.value is not None]
             if inits and stores and all(not opaque(x) for f in inits for x, _ in sources(f.value)) \
                     and not all(isinstance(simp(f.value), tuple) and simp(f.value)[0] == "meth" and simp(f.value)[2] == "rateexpr" for f in stores):
+                # understood and wrong: an entry replaced by a reference to a coefficient (text built around the array symbol) or by a
+                # rewriting of the entry it replaces; any other in-place edit (a list filled with blanks first, a guard completed in a
+                # second pass) is a construction this rule does not follow
+                def rewrites(f_):
+                    v_ = simp(f_.value)
+                    return any(y == SYM for y in walk(v_)) or (v_[0] == "meth" and v_[2] in ("replace", "lower", "upper", "format", "strip", "lstrip", "rstrip")
+                                                              and any(isinstance(y, tuple) and y and y[0] in ("sub", "elem", "acc") for y in walk(v_[1])))
+                if not any(rewrites(f_) for f_ in stores):
+                    ctx.unrec("R1", "_assign_rates:iteration", (FILE, stores[0].line), f"entries of `{b_[1]}` are stored in place after the list was built: how the final entries relate "
+                              "to the reactions is not followed: " + show(simp(stores[0].value))[:100])
+                    return
                 ctx.bad("R1", "_assign_rates:iteration", (FILE, stores[0].line),
                         f"entries of `{b_[1]}` are overwritten in place after the list was built one entry per reaction: the statement of a reaction no longer carries "
                         "that reaction's own guard / reac.rateexpr()", expected="no element store into the guard / rate lists", found=show(simp(stores[0].value))[:100])
@@ -573,12 +699,18 @@ def _r1(ctx):
             return helped(z[2]) or helped(z[3])
         if z[0] == "call" and z[1] == ("global", "zip"):
             return any(helped(a) for a in z[2])
+        if z[0] == "acc":
+            return loop_built_seq(fl, z[1]) is not None
         return summarise(z) is not None
 
     def at(z, l_, depth=0):
         z = simp(z)
         if z[0] in ("phi", "ifexp"):
             return ("phi", z[1], at(z[2], l_, depth), at(z[3], l_, depth))
+        if z[0] == "acc" and depth < 4:
+            lb_ = loop_built_seq(fl, z[1])
+            if lb_ is not None:
+                return resolve(subst_loop(lb_[1], lb_[0].id, l_), depth + 1)
         sm = summarise(z) if depth < 4 else None
         if sm is not None and sm[0] == "loop":
             return resolve(subst_loop(sm[3], sm[1], l_), depth + 1)
@@ -614,7 +746,7 @@ def _r1(ctx):
     for lp_ in fl.all_loops.values():
         allb.update(lp_.bvals)
     for _ in range(6):
-        e2 = simp(resolve(subst(elt, allb)))
+        e2 = simp(resolve(unslice(subst(elt, allb))))
         if e2 == elt:
             break
         elt = e2
@@ -705,8 +837,13 @@ def _r1(ctx):
         probs, unread = [], []
 
         def plain(x):
-            """built from constants, parameters, counters and attributes of reactions only: a value the rule reads completely"""
-            return all(not (isinstance(y, tuple) and y and y[0] in ("call", "meth", "unknown", "acc", "carried", "after", "sub", "item")) for y in walk(x))
+            """built from constants, parameters, counters and attributes of reactions only, all traced to THIS position: a value the rule
+            reads completely (an element of another loop / a comprehension variable that was not composed to this position is the
+            rule's failure to follow the construction, not a wrong piece)"""
+            return all(not (isinstance(y, tuple) and y and y[0] in ("call", "meth", "unknown", "acc", "carried", "after", "sub", "item")) for y in walk(x)) and not stray(x)
+
+        def stray(x):
+            return any(isinstance(y, tuple) and len(y) == 3 and ((y[0] in ("elem", "idx", "key", "val") and y[2] != L) or y[0] == "bv") for y in walk(x))
         if hv[g["s"]] != SYM:
             (probs if hv[g["s"]][0] in ("const", "param") else unread).append(f"array symbol is {show(hv[g['s']])}")
         if hv[g["i"]] != idx:
@@ -728,7 +865,9 @@ def _r1(ctx):
             # another coefficient; not understood: a value in which no rateexpr() can be seen at all
             seen_rate = any(isinstance(y, tuple) and len(y) == 5 and y[0] == "meth" and y[2] == "rateexpr" for x in lv for y in walk(x)) \
                 or any(y == SYM for x in lv for y in walk(x))
-            (probs if seen_rate else unread).append(f"rate expression is {show(e)[:80]}, not rateexpr() of the same reaction")
+            # (a bare rateexpr() of an element the rule did not trace to this position is the rule's failure, not a wrong piece)
+            bare_stray = all((isinstance(x, tuple) and len(x) == 5 and x[0] == "meth" and x[2] == "rateexpr" and (x[1] == r or (x[1][0] in ("elem", "bv") and stray(x[1])))) for x in lv)
+            (probs if seen_rate and not bare_stray else unread).append(f"rate expression is {show(e)[:80]}, not rateexpr() of the same reaction")
         if unread and not probs:
             ctx.unrec("R1", key, (FILE, rets[0].line), "cannot read a piece of the generated statement: " + "; ".join(unread)[:200])
             continue
@@ -770,11 +909,27 @@ def _loops_enclosing(spans, off):
     return tuple(sorted(s for s, e, lp in spans if lp and s < off < e))
 
 
+def _const_outs(items):
+    """the items with every output of a literal string (`{{ "text" }}`, a {% set %} alias of one after J.propagate_sets) as text"""
+    out = []
+    for it in items:
+        if it[0] == "out" and it[1][0] == "const" and isinstance(it[1][1], str):
+            out.append(("text", it[1][1]) + tuple(it[2:]))
+        elif it[0] == "for":
+            out.append(it[:3] + (tuple(_const_outs(it[3])), tuple(_const_outs(it[4]))) + tuple(it[5:]))
+        elif it[0] == "if":
+            out.append(it[:2] + (tuple(_const_outs(it[2])), tuple(_const_outs(it[3]))) + tuple(it[4:]))
+        else:
+            out.append(it)
+    return out
+
+
 def _r2(ctx):
     n = 0
     for label, rel, cfg in CALLER_TEMPLATES:
         ctx.saw(rel)
-        sk = Skel(J.flatten(ctx.tree, rel, cfg))
+        # (`{% set zero = "{0.0}" %} .. = {{ zero }};`: a name standing for a literal text prints that text)
+        sk = Skel(_const_outs(J.propagate_sets(J.flatten(ctx.tree, rel, cfg))))
         for f in sk.funcs:
             body = sk.plain(f.body)
             spans = _blocks(body)
@@ -792,6 +947,12 @@ def _r2(ctx):
                 init = d.group(2)
                 # `= {0.0}`, `= {0}`, `= {}` (C++ value-initialisation) all zero the whole array
                 zero = init is not None and re.fullmatch(r"\s*(0(\.0*)?f?)?\s*", init) is not None
+                if init is not None and not zero and re.fullmatch(r"\s*[-+]?(\d+\.?\d*|\.\d+)([eE][-+]?\d+)?f?\s*(,\s*[-+]?(\d+\.?\d*|\.\d+)([eE][-+]?\d+)?f?\s*)*,?\s*", init) is None:
+                    # an initialiser that is not a list of numeric literals (a macro, a template hole): what it puts into the array is not read
+                    ctx.unrec("R2", key, (rel, 0), f"cannot read the initialiser of `{arr}`: {d.group(0)[:80]}")
+                    continue
+                if init is not None and not zero and all(float(x.rstrip("fF")) == 0 for x in re.split(r"\s*,\s*", init.strip().rstrip(",").strip()) if x):
+                    zero = True                      # {0.0e0}, {0.0, 0.0}: zeros in another spelling
                 zstart = d.start()
                 between = body[d.end():m.start()]
                 if not zero:
@@ -853,15 +1014,24 @@ def _paste(it):
     if b is not None:
         seq, fs, idxvar = b, [], it[1]
     if seq[0] == "item" and seq[2][0] == "slice":
-        return "wrong", seq[1], f"only the slice {J.show(seq[2])} of the list is pasted"
+        if all(x in (None, ("const", None)) or (i_ == 0 and x == ("const", 0)) for i_, x in enumerate(seq[2][1:])):
+            seq = seq[1]                       # L[:] / L[0:] is every entry of L
+        else:
+            return "wrong", seq[1], f"only the slice {J.show(seq[2])} of the list is pasted"
+    if seq[0] == "item" and seq[1] == _ODE and seq[2][0] == "const" and isinstance(seq[2][1], str):
+        seq = ("attr", _ODE, seq[2][1])        # ode["rateeqns"] is ode.rateeqns
     for f in fs:
+        if f[0] in ("default", "d") and len(f[1]) <= 1 and not f[2]:
+            continue                           # the list is always defined: `| default([])` changes nothing
         if f[0] in _LOSSY_FILTERS:
             return "wrong", seq, f"the list is passed through `{f[0]}` before it is pasted"
         if f[0] != "list":
             return "unknown", seq, f"the list is passed through the filter `{f[0]}`"
     if it[7] is not None:
         return "wrong", seq, f"entries are pasted only when `{J.show(it[7])}` holds"
-    if any(x[0] not in ("out", "text", "set") for x in it[3]):
+    # (the brackets of an expanded macro call -- `{{ paste_one(assign) }}` -- print nothing: the macro's body stands in the loop body
+    # with its parameters replaced by the arguments, J.propagate_sets)
+    if any(x[0] not in ("out", "text", "set") and not (x[0] == "other" and isinstance(x[1], str) and x[1].startswith(("macro-begin:", "macro-end:"))) for x in it[3]):
         return "unknown", seq, "the loop body holds control items"
     outs = [x for x in it[3] if x[0] == "out" and not (x[1][0] == "const" and not str(x[1][1]).strip())]
     if len(outs) != 1:
@@ -872,6 +1042,8 @@ def _paste(it):
     if base not in elem:
         return "unknown", seq, f"the loop prints `{J.show(outs[0][1])}`, not the entry itself"
     for f in ofs:
+        if f[0] in ("default", "d") and len(f[1]) <= 1 and not f[2]:
+            continue                           # every entry is a defined string
         if f[0] in _LOSSY_FILTERS:
             return "wrong", seq, f"every entry is passed through `{f[0]}`, which can change the statement"
         if f[0] not in _WS_FILTERS:
@@ -919,6 +1091,9 @@ def _r3(ctx):
             found = J.show(it[2]) + " -> " + "; ".join(J.show(o[1]) for o in it[3] if o[0] == "out")
             if verdict == "unknown":
                 ctx.unrec("R3", key, (rel, it[5]), f"cannot see that {fname} prints every entry of ode.{field} exactly once: {why}")
+            elif verdict != "wrong" and seq != want and not (seq[0] == "attr" and seq[1] == _ODE):
+                # not another list of ode (an alias that was not resolved, an expression over the list): what is pasted is not read
+                ctx.unrec("R3", key, (rel, it[5]), f"cannot see that {fname} prints every entry of ode.{field} exactly once: the loop walks {J.show(seq)[:80]}")
             elif verdict == "wrong" or seq != want:
                 ctx.bad("R3", key, (rel, it[5]), f"{fname} does not output every entry of ode.{field} once, in order, unchanged: " + (why or f"the list pasted is {J.show(seq)}"),
                         expected=f"for assign in ode.{field}: {{{{ assign | stmwrap }}}}", found=found)
@@ -1242,6 +1417,24 @@ def _krome_window_stores(ctx, pkg, fn):
     if not stores:
         return None
     SELFP = ("param", "self")
+    # a store whose value is chosen by a condition (`self.temp_min = self._limit(value, self.temp_min)` with a helper that hands the
+    # default back for the no-bound spellings; `self.temp_min = float(..) if .. else self.temp_min`) is one store per leaf, on the path
+    # that chooses the leaf; storing the attribute's own current value is no store at all
+    import dataclasses
+    from ..valueflow import split_guard as _split
+
+    def _leaves(v, gs):
+        v = simp(v)
+        if v[0] in ("phi", "ifexp") and len(v) == 4:
+            return _leaves(v[2], gs + tuple(_split((simp(v[1]), True)))) + _leaves(v[3], gs + tuple(_split((simp(v[1]), False))))
+        return [(v, gs)]
+    split_stores = []
+    for f in stores:
+        for v_, gs_ in _leaves(f.value, ()):
+            if gs_ and v_ == ("attr", SELFP, f.target):
+                continue
+            split_stores.append(dataclasses.replace(f, value=v_, guards=tuple(f.guards) + gs_) if gs_ else f)
+    stores = split_stores
     decided = 0
     seen = set()
     for f in stores:
@@ -1312,6 +1505,8 @@ def _krome_window_stores(ctx, pkg, fn):
             return c
         from ..valueflow import split_guard
         G = [g2 for c, pol in f.guards for g2 in split_guard((rewrite(c), pol))]
+        if not guards_satisfiable(G):
+            continue                # a leaf of a conditional value on a path its own guards exclude (`x = f(v); if x is not None: self.a = x`)
         keyatoms = sorted({x for c, _ in G for x in walk(c) if isinstance(x, tuple) and len(x) == 3 and x[0] == "cmp" and x[1] == ("Eq",) and x[2][0] == key and x[2][1][0] == "const"}, key=repr)
         excl = [(("bool", "And", (a, b)), False) for i, a in enumerate(keyatoms) for b in keyatoms[i + 1:]]
         KG = [(c, pol) for c, pol in G if any(x in keyatoms for x in walk(c))]
@@ -1361,6 +1556,11 @@ def _krome_window_stores(ctx, pkg, fn):
                     nones |= set(lit_set(c[2][1]))
                     seen_test = True
                     continue
+                if left[0] == "meth" and left[2] in ("lower", "casefold") and not left[3] and _replace_chain(left[1])[0] == val \
+                        and all(isinstance(x, str) and x == x.lower() for x in lit_set(c[2][1])):
+                    nones |= {x.upper() for x in lit_set(c[2][1])}       # the same test on the lower-cased field
+                    seen_test = True
+                    continue
             if c[0] == "cmp" and c[1] == ("Eq",) and c[2][0] == val and c[2][1] == ("const", "") and not pol:
                 nones.add("")
                 continue
@@ -1376,7 +1576,9 @@ def _krome_window_stores(ctx, pkg, fn):
     if decided:
         for which in ("tmin", "tmax"):
             if which not in seen and not any(o.rule == "R4" and o.key.startswith(f"KROME:{which}:") for o in ctx.obs):
-                if hidden:
+                attr_ = "temp_" + which[1:]
+                elsewhere = any((isinstance(n, ast.Attribute) and n.attr == attr_ and isinstance(n.ctx, ast.Store)) or (isinstance(n, ast.Constant) and n.value == attr_) for n in ast.walk(fl.func))
+                if hidden or elsewhere:
                     ctx.unrec("R4", f"KROME:{which}:target", (KROME, fn.lineno), f"no plain store of the {which} column is visible (attributes are also set indirectly)")
                     continue
                 ctx.bad("R4", f"KROME:{which}:target", (KROME, fn.lineno), f"the {which} column is never stored into self.temp_{which[1:]}")
@@ -1396,14 +1598,30 @@ def _r4(ctx):
     ctx.floor("R4", "KROME window stores", found, 2, (KROME, fn.lineno))
     # defaults
     init = pkg.method("Reaction", "__init__")
-    names = [a.arg for a in init.args.args]
+    names = [a.arg for a in init.args.posonlyargs + init.args.args]
     defs = dict(zip(names[len(names) - len(init.args.defaults):], init.args.defaults))
+    defs.update({a.arg: d for a, d in zip(init.args.kwonlyargs, init.args.kw_defaults) if d is not None})
+    RFILE_ = pkg.cls("Reaction").file
     for a in ("temp_min", "temp_max"):
+        node = defs.get(a)
+        # a default spelled with a constant of the module / of the class (UNBOUNDED = -1.0) is that constant
+        for _ in range(3):
+            if isinstance(node, ast.Name):
+                node = next((st.value for st in pkg.modules[RFILE_].body if isinstance(st, ast.Assign) and len(st.targets) == 1 and isinstance(st.targets[0], ast.Name)
+                             and st.targets[0].id == node.id), None) \
+                    if sum(1 for n_ in ast.walk(pkg.modules[RFILE_]) if isinstance(n_, ast.Name) and isinstance(n_.ctx, (ast.Store, ast.Del)) and n_.id == node.id) == 1 else None
+            elif isinstance(node, ast.Attribute) and isinstance(node.value, ast.Name) and node.value.id in ("Reaction", "self", "cls"):
+                node = pkg.resolve_attr("Reaction", node.attr)[1]
         try:
-            v = ast.literal_eval(defs[a])
+            v = ast.literal_eval(node)
         except Exception:
             v = None
-        ctx.check(v is not None and v <= 0, "R4", f"Reaction.__init__:{a} default", ("naunet/reactions/reaction.py", init.lineno),
+        if not isinstance(v, (int, float)) or isinstance(v, bool):
+            # (None as default, a default filled in by the body, a value computed elsewhere: not read here)
+            ctx.unrec("R4", f"Reaction.__init__:{a} default", (RFILE_, init.lineno), f"cannot read the default of `{a}` in Reaction.__init__ as a number: "
+                      + (ast.unparse(defs[a])[:60] if a in defs else "no such parameter with a default"))
+            continue
+        ctx.check(v <= 0, "R4", f"Reaction.__init__:{a} default", (RFILE_, init.lineno),
                   "a reaction without window carries a non-positive bound (= unbounded)", found=repr(v))
     _uclchem_freeze(ctx, pkg)
 
@@ -1422,7 +1640,7 @@ def _uclchem_freeze(ctx, pkg):
         if not (isinstance(c, tuple) and len(c) == 3 and c[0] == "cmp" and c[1] in (("Eq",), ("Is",)) and len(c[2]) == 2):
             return False
         l, r = show(c[2][0]), show(c[2][1])
-        return (l.endswith("reaction_type") and r.endswith("UCLCHEM_FR")) or (r.endswith("reaction_type") and l.endswith("UCLCHEM_FR"))
+        return ("reaction_type" in l and "UCLCHEM_FR" in r) or ("reaction_type" in r and "UCLCHEM_FR" in l)
     stores = [f for f in ufl.facts if f.kind == "attrstore" and f.target in ("temp_min", "temp_max") and f.extra.get("obj") == ("param", "self")]
     atoms = set()
     for f in stores:
@@ -1445,7 +1663,10 @@ def _uclchem_freeze(ctx, pkg):
                  and any(isinstance(n, ast.Attribute) and isinstance(n.ctx, ast.Store) and n.attr in ("temp_min", "temp_max") for n in ast.walk(node))]
     if not atoms and stores and elsewhere:
         ctx.unrec("R4", "UCLCHEM:FREEZE window", W, f"the window is also stored outside _parse_string ({', '.join(elsewhere)}): where freeze-out reactions get (0, 30) is not decided here")
-    elif not atoms and stores and all(simp(f.value)[0] == "call" and simp(f.value)[1] == ("global", "float") for f in stores):
+    elif not atoms and len(stores) == 2 and all(simp(f.value)[0] == "call" and simp(f.value)[1] == ("global", "float") for f in stores) \
+            and not any(isinstance(x, tuple) and x and x[0] in ("phi", "ifexp", "carried", "after", "acc", "unknown") for f in stores for x in walk(simp(f.value))) \
+            and len({tuple(f.guards) for f in stores}) == 1:
+        # understood and wrong: each bound stored once, unconditionally, as float(<field of the line>) -- nothing chooses (0, 30)
         ctx.bad("R4", "UCLCHEM:FREEZE window", W, "no store of the temperature window depends on the reaction type being UCLCHEM_FR: freeze-out reactions keep the window of the file "
                                                   "instead of (0, 30)", expected="lt, ut = 0, 30 for UCLCHEM_FR", found="; ".join(show(simp(f.value))[:40] for f in stores))
     elif unread or not atoms:
@@ -1746,4 +1967,68 @@ MUTANTS += [
     {"name": "guard-builder-skips-flagged-reactions", "edits": [
         {"file": T, "old": "    def _assign_rates(\n", "new": _GUARD_HELPER % '        if getattr(r, "constant_rate", False):\n            return ""\n'},
         {"file": T, "old": "        " + _LT + "\n        " + _UT + "\n" + _TR, "new": "        tranges = [self._guard(r) for r in reactions]\n"}], "rules": ["R1"]},
+]
+# ---- wave 4: everyday pull-request refactors (extract / inline a helper, guard clauses, loop <-> comprehension, constants, Jinja macro)
+_COND_HELPER = ('    @staticmethod\n    def _temperature_condition(reaction):\n        bounds = []\n        if reaction.temp_min > 0:\n            bounds.append(f"Tgas>={reaction.temp_min}")\n'
+                '        if reaction.temp_max > 0:\n            bounds.append(f"Tgas%s{reaction.temp_max}")\n        return " && ".join(bounds)\n\n    def _assign_rates(\n')
+_GUARDS3 = "        " + _LT + "\n        " + _UT + "\n" + _TR
+_COND_LOOP = ('        tranges = []\n        for r in reactions:\n            conditions = []\n            if r.temp_min > 0:\n                conditions.append(f"Tgas>={r.temp_min}")\n'
+              '            if r.temp_max > 0:\n                conditions.append(f"Tgas%s{r.temp_max}")\n            tranges.append(" && ".join(conditions))\n')
+_FMT_GUARD_CLAUSES = [
+    {"file": RFILE, "old": "        verbose = None\n\n        rnames = [x.name for x in sorted(self.reactants)]", "new": "        rnames = [x.name for x in sorted(self.reactants)]"},
+    {"file": RFILE, "old": "            verbose = ", "new": "            return ", "count": 7},
+    {"file": RFILE, "old": "        elif form ==", "new": "        if form ==", "count": 6},
+    {"file": RFILE, "old": '        else:\n            raise ValueError(f"Unknown format: {form}")\n\n        return verbose\n', "new": '        raise ValueError(f"Unknown format: {form}")\n'},
+]
+_STM_MACRO = '{%% macro ratestm(stm) -%%}\n{{ stm%s | stmwrap(80, 8) }}\n        {{ "" }}\n{%%- endmacro %%}\n#include <math.h>\n'
+_STM_CALL = '    {% for assign in ode.rateeqns -%}\n        {{ ratestm(assign) }}\n    {% endfor %}\n'
+_K_DEFAULT_HELPER = ('    @staticmethod\n    def _limit(text, default):\n        if text.upper() in ["N", "NONE", "N/A", "NO", ""]:\n            return default\n'
+                     '        for opstr in ["<", ">", %s".GE.", ".LT.", ".GT."]:\n            text = text.replace(opstr, "")\n        return float(text.replace("d", "e"))\n\n' + _K_CLS)
+_K_DEFAULT_ARMS = ('                elif key == "tmin":\n                    self.temp_min = self._limit(value, self.temp_min)\n'
+                   '                elif key == "tmax":\n                    self.temp_max = self._limit(value, self.temp_max)\n')
+_K_PROC_HELPER = ('    def _set_limit(self, attribute, text):\n        if text.upper() in ["N", "NONE", "N/A", "NO", ""]:\n            return\n'
+                  '        for opstr in ["<", ">", ".LE.", ".GE.", ".LT.", ".GT."]:\n            text = text.replace(opstr, "")\n        setattr(self, attribute, float(text.replace("d", "e")))\n\n' + _K_CLS)
+_K_PROC_ARMS = '                elif key == "tmin":\n                    self._set_limit("%s", value)\n                elif key == "tmax":\n                    self._set_limit("%s", value)\n'
+_K_PICKED = ('                elif key in ("tmin", "tmax"):\n                    ' + _K_NONE + '\n                        ' + _K_OPS + '\n                            value = value.replace(opstr, "")\n'
+             '                        value = value.replace("d", "e")\n                        attribute = "%s" if key == "tmin" else "%s"\n                        setattr(self, attribute, float(value))\n')
+_NET = "naunet/network.py"
+_DUP_DEF = "    def find_duplicate_reaction(self, mode: str = None) -> list[tuple[int, Reaction]]:\n"
+_DUP_LIST = ('        check_list = reactions\n\n        if mode == "brief":\n            check_list = [Reaction(re.reactants, re.products) for re in reactions]\n'
+             '        elif mode is not None:\n            check_list = [f"{react:{mode}}" for react in reactions]\n')
+_DUP_KEY = ('    @staticmethod\n    def _comparison_key(reaction, mode):\n        if mode is None:\n            return %s\n        if mode == "brief":\n'
+            '            return Reaction(reaction.reactants, reaction.products)\n        return f"{reaction:{mode}}"\n\n' + _DUP_DEF)
+_INIT_DEFAULTS = "        temp_min: float = -1.0,\n        temp_max: float = -1.0,\n"
+_U_FR = "            if self.reaction_type == self.ReactionType.UCLCHEM_FR:\n                lt, ut = 0, 30\n"
+MUTANTS += [
+    {"name": "condition-helper-with-appends-upper-inclusive", "edits": [{"file": T, "old": "    def _assign_rates(\n", "new": _COND_HELPER % "<="},
+                                                                        {"file": T, "old": _GUARDS3, "new": "        tranges = [self._temperature_condition(reac) for reac in reactions]\n"}], "rules": ["R1"]},
+    {"name": "conditions-list-per-iteration-upper-inclusive", "file": T, "old": _GUARDS3, "new": _COND_LOOP % "<=", "rules": ["R1"]},
+    {"name": "format-guard-clauses-bounds-in-exponent-notation", "edits": _FMT_GUARD_CLAUSES + [{"file": RFILE, "old": 'f"{self.temp_max:9.2f}"', "new": 'f"{self.temp_max:9.2e}"'}], "rules": ["R7"]},
+    {"name": "paste-macro-per-statement-rewrites-guard", "edits": [{"file": RATES, "old": "#include <math.h>\n", "new": _STM_MACRO % ' | replace("if (", "if (1 || ")'}, {"file": RATES, "old": _J_LOOP, "new": _STM_CALL}], "rules": ["R3"]},
+    {"name": "krome-limit-helper-with-default-lacks-.LE.", "edits": [{"file": KROME, "old": _K_CLS, "new": _K_DEFAULT_HELPER % ""}, {"file": KROME, "old": _K_ARMS_OLD, "new": _K_DEFAULT_ARMS}], "rules": ["R4"]},
+    {"name": "krome-procedure-helper-crossed", "edits": [{"file": KROME, "old": _K_CLS, "new": _K_PROC_HELPER}, {"file": KROME, "old": _K_ARMS_OLD, "new": _K_PROC_ARMS % ("temp_max", "temp_min")}], "rules": ["R4"]},
+    {"name": "krome-attribute-picked-by-test-swapped", "file": KROME, "old": _K_ARMS_OLD, "new": _K_PICKED % ("temp_max", "temp_min"), "rules": ["R4"]},
+    {"name": "duplicates-key-helper-default-brief", "edits": [{"file": _NET, "old": _DUP_DEF, "new": _DUP_KEY % "Reaction(reaction.reactants, reaction.products)"},
+                                                              {"file": _NET, "old": _DUP_LIST, "new": "        check_list = [self._comparison_key(react, mode) for react in reactions]\n"}], "rules": ["R5"]},
+    {"name": "init-defaults-by-constant-positive", "edits": [{"file": RFILE, "old": "class Reaction(Component):\n", "new": "UNBOUNDED = 1.0\n\n\nclass Reaction(Component):\n"},
+                                                             {"file": RFILE, "old": _INIT_DEFAULTS, "new": "        temp_min: float = UNBOUNDED,\n        temp_max: float = UNBOUNDED,\n"}], "rules": ["R4"]},
+]
+BENIGN += [
+    {"name": "condition-helper-with-appends", "edits": [{"file": T, "old": "    def _assign_rates(\n", "new": _COND_HELPER % "<"},
+                                                        {"file": T, "old": _GUARDS3, "new": "        tranges = [self._temperature_condition(reac) for reac in reactions]\n"}]},
+    {"name": "conditions-list-per-iteration", "file": T, "old": _GUARDS3, "new": _COND_LOOP % "<"},
+    {"name": "rates-over-full-slice-copy", "file": T, "old": "rateexprs = [reac.rateexpr() for reac in reactions]", "new": "rateexprs = [reac.rateexpr() for reac in reactions[:]]"},
+    {"name": "format-guard-clauses", "edits": _FMT_GUARD_CLAUSES},
+    {"name": "paste-macro-per-statement", "edits": [{"file": RATES, "old": "#include <math.h>\n", "new": _STM_MACRO % ""}, {"file": RATES, "old": _J_LOOP, "new": _STM_CALL}]},
+    {"name": "paste-loop-subscript-default-full-slice", "file": RATES, "old": "{% for assign in ode.rateeqns -%}", "new": '{% for assign in ode["rateeqns"][:] | default([]) -%}'},
+    {"name": "fex-k-zero-through-set-alias", "file": FEX, "old": _FEX_K, "new": '    {% set zero = "{0.0}" -%}\n    realtype k[NREACTIONS] = {{ zero }};\n    EvalRates(k, y, u_data);'},
+    {"name": "krome-limit-helper-with-default", "edits": [{"file": KROME, "old": _K_CLS, "new": _K_DEFAULT_HELPER % '".LE.", '}, {"file": KROME, "old": _K_ARMS_OLD, "new": _K_DEFAULT_ARMS}]},
+    {"name": "krome-procedure-helper-with-guard-clause", "edits": [{"file": KROME, "old": _K_CLS, "new": _K_PROC_HELPER}, {"file": KROME, "old": _K_ARMS_OLD, "new": _K_PROC_ARMS % ("temp_min", "temp_max")}]},
+    {"name": "krome-attribute-picked-by-test", "file": KROME, "old": _K_ARMS_OLD, "new": _K_PICKED % ("temp_min", "temp_max")},
+    {"name": "krome-no-bound-test-lower-cased", "file": KROME, "old": _K_NONE, "new": 'if value.lower() not in ["n", "none", "n/a", "no", ""]:', "count": 2},
+    {"name": "duplicates-key-helper-per-reaction", "edits": [{"file": _NET, "old": _DUP_DEF, "new": _DUP_KEY % "reaction"},
+                                                             {"file": _NET, "old": _DUP_LIST, "new": "        check_list = [self._comparison_key(react, mode) for react in reactions]\n"}]},
+    {"name": "init-defaults-by-constant", "edits": [{"file": RFILE, "old": "class Reaction(Component):\n", "new": "UNBOUNDED = -1.0\n\n\nclass Reaction(Component):\n"},
+                                                    {"file": RFILE, "old": _INIT_DEFAULTS, "new": "        temp_min: float = UNBOUNDED,\n        temp_max: float = UNBOUNDED,\n"}]},
+    {"name": "uclchem-freeze-test-by-type-name", "file": UCL, "old": _U_FR, "new": '            if self.reaction_type.name == "UCLCHEM_FR":\n                lt, ut = 0, 30\n'},
 ]
